@@ -56,7 +56,7 @@ def generate(seed, tier):
             c["timeout"] = 40 if tier == "quick" else 60
         elif tier == "quick":
             c["timeout"] = 30
-    return CF.order_cases(cases, cli)
+    return CF.order_cases(cases, cli, tier)
 
 
 def worker_init(tier):
@@ -97,16 +97,17 @@ def relation_space(fld, monos, value_rows, eps, res):
     return confirmed, len(cands)
 
 
-def membership_violations(confirmed, basis_exprs, names, fld, res, describe):
+def membership_violations(confirmed, basis_polys, basis_exprs, names, fld, res, describe):
     q_exprs = [CF.poly_to_sympy(q, names, fld) for q in confirmed]
-    inside, _G = CF.ideal_membership(q_exprs, basis_exprs, names, fld)
+    inside, _G = CF.ideal_membership(q_exprs, basis_polys, names, fld)
     res["comparisons"] += len(q_exprs)
     missing = [(q, e) for q, e, ok in zip(confirmed, q_exprs, inside) if not ok]
     if not missing:
         return
     missing.sort(key=lambda t: (max(sum(m) for m, _ in t[0]), len(t[0])))
     key, diag, fixed = CF.diagnose_and_key(
-        names, lambda rec: all(CF.ideal_membership([e for _, e in missing[:MAX_REPORT]], rec, names, fld)[0]))
+        names, lambda rec: all(CF.ideal_membership([e for _, e in missing[:MAX_REPORT]],
+                                                    [q for q, _ in CF.basis_to_polys(rec, names, fld)], names, fld)[0]))
     for q, e in missing[:MAX_REPORT]:
         res["violations"].append({
             "kind": "relation-not-generated" if basis_exprs else "relation-exists-but-none-reported", "key": key,
@@ -143,7 +144,7 @@ def run_direct_case(case, tier):
     confirmed, ncand = relation_space(fld, monos, value_rows, eps, res)
     describe = "; ".join(f"{nm} = {ep.show()}" for nm, ep in zip(names, eps))
     if confirmed:
-        membership_violations(confirmed, basis_exprs, names, fld, res, describe)
+        membership_violations(confirmed, [q for q, _ in polys], basis_exprs, names, fld, res, describe)
     nonconst = sum(1 for ep in eps if not ep.is_constant())
     res["nontrivial"] = bool(confirmed) or (not basis_exprs and nonconst >= 2)
     res["verdict"] = "violated" if res["violations"] else "held"
@@ -218,7 +219,7 @@ def run_cli_case(case, tier):
     confirmed, ncand = relation_space(fld, monos, value_rows, eps, res)
     describe = "program goals " + "; ".join(f"{g} = {ep.show()}" for g, ep in zip(gids, eps))
     if confirmed:
-        membership_violations(confirmed, basis_exprs, gids, fld, res, describe)
+        membership_violations(confirmed, [q for q, _ in polys], basis_exprs, gids, fld, res, describe)
     nonconst = sum(1 for ep in eps if not ep.is_constant())
     res["nontrivial"] = bool(confirmed) or (not basis_exprs and nonconst >= 2)
     res["verdict"] = "violated" if res["violations"] else "held"
